@@ -30,6 +30,8 @@ THEOREMS = [
     "C04.earlier_effects_durable",
     "C04.model_satisfies_check",
     "C04.single_txn_autocommit_block_commits",
+    "C04.shape_preStmt_same",
+    "C04.shape_noOuter_same",
     "C04.configure_perMig_own",
     "C04.configure_tddl_own_counterexample",
     "C04.configure_tddl_own_partial",
@@ -70,7 +72,12 @@ RULE = (
     "in _update_version and in _delete_version), all 16 configs + command path; (3) depends_on histories (witnesses of F2/F3), a branch "
     "point and a merge next to an unrelated head, both directions; (4) the shipped multidb template (two SQLite databases, "
     "pysqlite and recipe, both directions, every position: the failing database, the already migrated one and the untouched one are "
-    "each judged). A case is non-trivial when the run raised; distinct by (config, plan, k, pos, kind)"
+    "each judged). (5) env.py variants: a statement executed on the migration connection between configure() and "
+    "begin_transaction() (get_current_heads / connection SELECT / context.execute) and run_migrations() without the outer "
+    "begin_transaction() (only where that level is a nullcontext): round robin over the configs of every random in-process script, and "
+    "on the command path (patched generic env.py) every variant x 4 settings (all 8 in thorough) x every failure position for a script "
+    "with and one without autocommit blocks; (6) a hand-written two-database env.py with different settings per configure() call (all 16 "
+    "ordered pairs). A case is non-trivial when the run raised; distinct by (config, plan, k, pos, kind)"
 )
 ASSUMPTIONS = [
     "env.py has the documented shape: with connectable.connect() as connection: configure(connection=...); "
@@ -78,6 +85,29 @@ ASSUMPTIONS = [
     "an external caller wraps the run in `with connection.begin():` (rollback on exception); the shipped multidb env.py is such a caller",
     "templates/async/env.py is not executed (no async SQLite driver in the sandbox); its synchronous part do_run_migrations has the generic shape",
 ]
+
+# env.py variants: "heads"/"select"/"ctxexec" execute something on the migration connection between configure() and
+# begin_transaction(); "no_outer" calls run_migrations() without the outer begin_transaction() (only sensible - and only
+# generated - where that level is a nullcontext anyway: transactional_ddl false or transaction_per_migration, no external txn)
+SHAPES = ["stock", "heads", "select", "ctxexec", "no_outer"]
+MODEL_SHAPE = {"stock": "stock", "heads": "preStmt", "select": "preStmt", "ctxexec": "preStmt", "no_outer": "noOuter"}
+
+
+def shape_ok(config, shape, default_tddl=False):
+    if shape != "no_outer":
+        return True
+    tddl = config.get("tddl") if config.get("tddl") is not None else default_tddl
+    return not config.get("external") and (not tddl or bool(config.get("perMig")))
+
+
+def with_shapes(configs, offset):
+    """round robin assignment of an env.py shape to every config (deterministic)"""
+    out = []
+    for j, c in enumerate(configs):
+        sh = SHAPES[(offset + j) % len(SHAPES)]
+        out.append(dict(c, shape=sh if shape_ok(c, sh) else "heads"))
+    return out
+
 
 PLAN_ERRORS = {"err:multipleHeads", "err:resolution", "err:rangeNotAncestor", "err:revisionError", "err:commandError"}
 ENGINE_MODE = {"pysqlite": "pysqlite", "recipe": "transactional"}
@@ -215,7 +245,7 @@ def script_cases(ctx, script, configs, runner="inprocess", cfg_obj=None, scratch
                 if config.get("tddl") is not None:
                     kw["transactional_ddl"] = config["tddl"]
             res, orc = oi.run_command(cobj, script["bodies"], rev_index, script["cmd"], script["target"], config["engine"], fail,
-                                      configure_kw=kw, hook=patched)
+                                      configure_kw=kw, hook=patched, shape=config.get("shape", "stock") if patched else "stock")
         return res, orc, oi.observe(work, rev_index)
 
     for cfg_no, config in enumerate(configs):
@@ -260,8 +290,10 @@ def script_cases(ctx, script, configs, runner="inprocess", cfg_obj=None, scratch
             "pre": [{"k": "ddl", "a": ["cvt"]}] if not db0["vt"] else [],
             "plan": plan, "db": {k: db0[k] for k in ("objs", "rows", "vt")},
             "upgrade": script["cmd"] == "upgrade", "parents": parents,
+            "shape": MODEL_SHAPE[config.get("shape", "stock")],
         }
         meta = {"runner": runner, "config": config, "script": script}
+        ctx.hist("env.py shape x runner", "%s / %s" % (config.get("shape", "stock"), runner))
         ref_fail = {"k": orc.step, "pos": orc.pos, "kind": "exception"} if self_fail else None
         yield dict(base_inp, fail=ref_fail), {"res": res, "final": fin, "eff": [orc.step, orc.pos] if res != "ok" else None}, meta
         nonexc = ["keyboardInterrupt", "systemExit", "baseException"]
@@ -777,6 +809,15 @@ def run(ctx, n_scripts=None, rng_name="main"):
                 for e in ("pysqlite", "recipe") for t in (None, True) for pm in (False, True)]
     jobs.append((dict(fixed[0], all_kinds=False), env_cfgs, "command"))
     jobs.append((dict(fixed[1], all_kinds=False), env_cfgs[1::2] if not ctx.thorough else env_cfgs, "command"))
+    # env.py variants on the command path (patched generic env.py): every non-stock shape x a sample of the settings
+    # (all settings in the thorough tier) x every failure position
+    shape_cfgs = []
+    for sh in SHAPES[1:]:
+        for c in (env_cfgs if ctx.thorough else [env_cfgs[0], env_cfgs[1], env_cfgs[6], env_cfgs[7]]):
+            if shape_ok(c, sh):
+                shape_cfgs.append(dict(c, shape=sh))
+    jobs.append((dict(fixed[0], all_kinds=False), shape_cfgs if ctx.thorough else shape_cfgs[::2], "command"))
+    jobs.append((dict(fixed[2], all_kinds=False), shape_cfgs, "command"))  # a script without autocommit blocks
     # failures raised by alembic itself inside the version update (rowcount check), every configuration
     for s in SABOTAGE_SCRIPTS:
         jobs.append((s, all_configs(rng, True), "inprocess"))
@@ -788,7 +829,7 @@ def run(ctx, n_scripts=None, rng_name="main"):
     jobs.append((DEPS_SCRIPTS[0], cmd_cfgs[:1], "command"))
     for i in range(n):
         script = gen_script(rng, 4 if not ctx.thorough else 6)
-        jobs.append((script, all_configs(rng, ctx.thorough), "inprocess"))
+        jobs.append((script, with_shapes(all_configs(rng, ctx.thorough), i), "inprocess"))
         if i % 4 == 0:
             jobs.append((script, cmd_cfgs + [env_cfgs[(i // 4) % len(env_cfgs)]], "command"))
     jobs.append(("multidb", None, "multidb"))
@@ -922,7 +963,7 @@ def replay(ctx, case):
                 if config.get("tddl") is not None:
                     kw["transactional_ddl"] = config["tddl"]
             res, orc = oi.run_command(cfg_obj, script["bodies"], rev_index, script["cmd"], script["target"], config["engine"], fail,
-                                      configure_kw=kw, hook=patched)
+                                      configure_kw=kw, hook=patched, shape=config.get("shape", "stock") if patched else "stock")
         else:
             res, orc = oi.run_inprocess(base, script["hist"], script["bodies"], rev_index, script["cmd"], script["target"], config, fail)
         fin = oi.observe(base, rev_index)
